@@ -28,7 +28,7 @@ def build_programs(wdir, progs):
     inc = ["-I" + os.path.join(build.REPO, "skeletons"), "-I" + sim]
     hc = build.compile_many("gcc", [os.path.join(sim, f) for f in ("tsanlite.c", "c19_seams.c", "abort_seam.c", "random_seam.c")],
                             os.path.join(wdir, "obj-h"), HARNESS_CFLAGS + ["-Wall"] + inc)
-    hcc = build.compile_many("g++", [os.path.join(sim, f) for f in ("core.cc", "walker.cc", "ber.cc", "c19main.cc")],
+    hcc = build.compile_many("g++", [os.path.join(sim, f) for f in ("core.cc", "walker.cc", "ber.cc", "transport.cc", "c19main.cc")],
                              os.path.join(wdir, "obj-h"), HARNESS_CFLAGS + ["-std=c++17", "-Wall", "-Wno-unused-function"] + inc)
     exes = {}
     def one(p):
